@@ -6,7 +6,7 @@ from .engine import Engine, State, Frame, Violation, PathEnd, Inconclusive, Unsu
 from . import intrinsics
 
 def make_root(E):
-    st = State(); st.mem = {}; st.frames = []; st.sid = new_sid(); st.model = None; st.inputs = []; st.live = {}
+    st = State(); st.mem = {}; st.frames = []; st.sid = new_sid(); st.vals = {}; st.dom = {}; st.ent = frozenset(); st.inputs = []; st.live = {}
     st.libc_calls = 0; st.covers = []; st.decisions = []; st.nasserts = 0; st.notes = []; st.nfail = 0; st.assumed = False
     st.nobj = 0
     E.init_globals(st)
@@ -27,7 +27,7 @@ def explore(E, prefix, split_depth=None):
     while stack:
         st, cond, action, d = stack.pop()
         E.pop_to(d)
-        if cond is not None: E.push(cond)
+        if cond is not None: E.assume(st, cond)
         if action is not None: E.apply_alt(st, action)
         E.stats['states'] += 1
         E.replaying = len(st.decisions) < len(E.replay)
@@ -51,36 +51,17 @@ def explore(E, prefix, split_depth=None):
             want = E.replay[k]; alts = [a for a in alts if a[0] == want]
             if not alts: raise Unsupported('replay divergence')
         feas = []
-        if k < len(E.replay):
-            idx, c, action = alts[0]; m = E.feasible(st, c)
-            if m is None: raise Unsupported('replayed decision infeasible')
-            feas.append((idx, c, action, m))
-        else:
-            # the alternatives partition the value space: find the feasible ones with one query per feasible alternative
-            remaining = list(alts); m = st.model; excl = []
-            while remaining:
-                hit = None
-                if m is not None:
-                    for a in remaining:
-                        if z3.is_true(m.eval(a[1], model_completion=True)): hit = a; break
-                if hit is None:
-                    if m is not None and not excl: raise Unsupported('fork alternatives are not exhaustive')
-                    # no model yet (root state): plain per-alternative check
-                    a = remaining.pop(0); mm = E.check(a[1])
-                    if mm is not None: feas.append((a[0], a[1], a[2], mm))
-                    continue
-                remaining.remove(hit); feas.append((hit[0], hit[1], hit[2], m)); excl.append(z3.Not(hit[1]))
-                if not remaining: break
-                m = E.check(z3.And(excl) if len(excl) > 1 else excl[0])
-                if m is None: break
-            feas.sort(key=lambda f: f[0])
+        for idx, c, action in alts:
+            m = E.feasible(st, c)
+            if m is not None: feas.append((idx, c, action, m))
+            elif k < len(E.replay): raise Unsupported('replayed decision infeasible')
         if len(feas) > 1: E.stats['forks'] += len(feas) - 1
         if not feas: raise Unsupported('no feasible alternative at fork (pc unsat?)')
         depth = E.depth; kids = []
         only = len(feas) == 1 and k >= len(E.replay)
         for j, (idx, c, action, m) in enumerate(feas):
             s2 = st if j == len(feas) - 1 else st.clone()
-            s2.model = m; s2.decisions = s2.decisions + [idx]
+            s2.vals = m; s2.decisions = s2.decisions + [idx]
             kids.append((s2, None if only else c, action, depth))    # a sole feasible alternative is implied by the pc
         if split_depth is not None and len(kids[0][0].decisions) >= split_depth and len(kids[0][0].decisions) > len(E.replay):
             for s2, c, action, dd in kids: out_prefixes.append(list(s2.decisions))
